@@ -184,7 +184,7 @@ def allowance(method, orc, n, x, step):
 # ---------------------------------------------------------------------------------------------
 # bounds
 
-BOUND_KINDS = ['none', 'inside', 'lower-face', 'upper-face', 'corner', 'degenerate']
+BOUND_KINDS = ['none', 'inside', 'lower-face', 'upper-face', 'corner', 'degenerate', 'hairline']
 
 
 def make_bounds(kind, x, j0):
@@ -203,6 +203,13 @@ def make_bounds(kind, x, j0):
             lb[j0] = x[j0] - 1e-3 * X[j0]
         else:
             ub[j0] = x[j0] + 1e-3 * X[j0]
+    elif kind == 'hairline':
+        # strictly inside, but closer to a bound than any step: the scheme has to turn to the other side, the
+        # documented step size is kept (it only shrinks if neither side has room)
+        if j0 % 2:
+            lb[j0] = x[j0] - 1e-12 * X[j0]
+        else:
+            ub[j0] = x[j0] + 1e-12 * X[j0]
     elif kind == 'lower-face':
         lb[j0] = x[j0]
     elif kind == 'upper-face':
@@ -366,7 +373,7 @@ def run_one(case):
     if np.any(bad):
         i, j = [int(v) for v in np.argwhere(bad)[0]]
         cls = 'affine' if spec[0] == 'affine' else 'ridge'
-        bcls = {'none': 'no-bounds', 'inside': 'interior'}.get(bkind, 'x-on-boundary')
+        bcls = {'none': 'no-bounds', 'inside': 'interior', 'hairline': 'interior-hairline'}.get(bkind, 'x-on-boundary')
         probs.append(('C19:%s:value:%s:%s-step:%s' % (tag, cls, 'auto' if step is None else 'user', bcls),
                       '%s entry (%d, %d) = %r, closed form %r, error %.3g > allowance %.3g (nominal step %.3g; '
                       '%d of %d entries off)' % (api, i, j, float(got[i, j]), float(orc['J'][i, j]),
@@ -381,7 +388,7 @@ def run_one(case):
 def bound_variants(n, m, full):
     out = [('none', 0)]
     j0s = range(n) if full else [(n + m) % n]
-    for kind in ('inside', 'lower-face', 'upper-face', 'degenerate'):
+    for kind in ('inside', 'lower-face', 'upper-face', 'degenerate', 'hairline'):
         out += [(kind, j) for j in j0s]
     out += [('corner', p) for p in ((0, 1) if full else ((n + m) % 2,))]
     return out
@@ -410,7 +417,7 @@ def unit_cases(unit, full):
         for shp in xshapes(n):
             for method in METHODS:
                 for step in STEPS:
-                    for kind, j0 in (('none', 0), ('inside', (n + 1) % n), ('corner', n % 2)):
+                    for kind, j0 in (('none', 0), ('inside', (n + 1) % n), ('corner', n % 2), ('hairline', 0)):
                         for e in (0, 1):
                             yield dict(api=api, n=n, m=1, map=list(spec), pt=pt, method=method, step=step,
                                        bounds=kind, j0=j0, extras=e, xshape=shp)
@@ -594,7 +601,7 @@ def run(ctx):
 
     req = ['J:%s:step=%s:bounds=%s' % (mth, step_name(s), b) for mth in METHODS for s in STEPS for b in BOUND_KINDS]
     req += ['G:%s:step=%s:bounds=%s' % (mth, step_name(s), b) for mth in METHODS for s in STEPS
-            for b in ('none', 'inside', 'corner')]
+            for b in ('none', 'inside', 'corner', 'hairline')]
     req += ['J:n=%d' % n for n in range(1, 7)] + ['G:n=%d' % n for n in range(1, 7)]
     req += ['J:m=%d' % m for m in range(1, 6)] + ['J:affine', 'J:ridge', 'G:affine', 'G:ridge',
                                                    'J:extras=0', 'J:extras=1', 'G:extras=0', 'G:extras=1',
